@@ -10,7 +10,7 @@ CHECKS = {
    note="Trusts: LD_PRELOAD symbol order (libvrec.so right after libsnoopy.so), the driver's own hashing, strace-free observation; shapes are sampled, not exhaustive."),
  "C02": dict(level="exploration", design="3/C02", technique="compiler sanitizers (ASan+UBSan, reports fatal) over generated/mutated configs and inputs, in vivo and in vitro",
    text="ASan+UBSan builds of the working tree (thread-safe and not) are driven, one process per case, with grammar-generated and byte-mutated snoopy.ini files crossed with exec shapes and hostile environments (environ==NULL, thousands of variables, 1 MiB values) through the production entry points; the same build's static archive is linked into an instrumented harness that calls every data source / filter / output / helper with exact-size heap buffers from 257 bytes to 1 MiB+1 under hostile process states. Any sanitizer report, fatal signal, watchdog firing, missing real exec or unterminated result buffer is a violation.",
-   note="Red-zone sanitizers see adjacent overflows and UB on the paths the workload reaches only; a clean run is not memory safety. libFuzzer arm not built."),
+   note="Red-zone sanitizers see adjacent overflows and UB on the paths the workload reaches only; a clean run is not memory safety. A coverage-guided libFuzzer arm (clang build, config bytes -> full logging action) runs in both tiers."),
 
  "C03": dict(level="fault_enumeration", design="3/C03", technique="strace syscall fault injection at every I/O syscall between wrapper entry and real exec + natural hostile sink states",
    text="For each scenario (every output x all-sources / single-source / default formats x filter chains) a baseline trace yields the ordered syscalls between the driver's BEGIN and REAL markers; every I/O syscall position is failed with errnos from a per-syscall table (one rotating errno per position in quick, every errno in thorough), plus persistent faults (the syscall keeps failing from position k on) and sampled two-fault runs; a run counts only if (INJECTED) shows inside the window. Natural sink states without injection: absent/dir/unwritable/ENOSPC file targets, absent socket, datagram socket with full unread queue (socket and devlog), stream listener, closed and reader-less stdout/stderr, no controlling tty, unreadable config, deleted cwd. Oracle from the trace: real exec reached exactly once, scripted ret/errno delivered, no signal, bounded window, no watchdog firing.",
@@ -53,7 +53,7 @@ CHECKS = {
 
  "C14": dict(level="exploration", design="3/C14", technique="runtime monitoring under constructed uids",
    text="Children running under real uid R (0, 1, 999, 2^16-1, 2^16, 2^31-1, 2^31, 2^32-2) with an unrelated effective uid consult only_uid:L, exclude_uid:L and only_root through the production library for generated lists with near misses; outcomes are compared with exact set membership and only_uid xor exclude_uid.",
-   note="Lists limited to one config line (about 85 uids)."),
+   note="Through snoopy.ini lists are limited to one config line (about 85 uids); lists of 100..200 uids are fed to the filters directly (in-vitro arm)."),
 
  "C15": dict(level="exploration", design="3/C15", technique="runtime monitoring under constructed process ancestries",
    text="The driver builds real process chains of depth 1..12 (fork + prctl(PR_SET_NAME) per level) with generated kernel names (spaces, parentheses, exactly 15 and longer than 15 bytes, prefixes and case variants of each other); the leaf makes the wrapped call under exclude_spawns_of:<list>. logged <=> no ancestor (generated chain + the harness's real ancestors read from /proc, never the leaf itself) is in the list; with /proc hidden inside the driver's mount namespace the call must be logged whatever the list says.",
